@@ -20,6 +20,16 @@ type c10Case struct {
 	HasW   bool  `json:"hasw,omitempty"`
 	Sorted bool  `json:"sorted,omitempty"`
 	Qs     []F64 `json:"qs"`
+	// history: ONE Sample whose backing arrays are overwritten in place between the steps
+	// (hasw applies to the whole history); xs/ws/ps/sorted/qs above are unused then
+	Steps []c10Step `json:"steps,omitempty"`
+}
+
+type c10Step struct {
+	Xs     []F64 `json:"xs"`
+	Ws     []F64 `json:"ws,omitempty"`
+	Sorted bool  `json:"sorted,omitempty"`
+	Qs     []F64 `json:"qs"`
 }
 
 func bitsEqual(a, b []float64) bool {
@@ -47,6 +57,9 @@ func c10Run(raw []byte) (*Line, error) {
 	var c c10Case
 	if err := json.Unmarshal(raw, &c); err != nil {
 		return nil, err
+	}
+	if len(c.Steps) > 0 {
+		return c10RunHistory(&c)
 	}
 	if c.HasW && len(c.Ps) > 0 {
 		if len(c.Xs) != 0 || len(c.Ws) != 0 {
@@ -80,13 +93,21 @@ func c10Run(raw []byte) (*Line, error) {
 		return nil, fmt.Errorf("Sorted set on data that is not ascending")
 	}
 	s := stats.Sample{Xs: xs, Weights: ws, Sorted: c.Sorted}
-	xs0 := append([]float64(nil), xs...)
-	var ws0 []float64
-	if ws != nil {
-		ws0 = append([]float64{}, ws...)
-	}
 	l := &Line{}
-	l.I(10).B(c.Sorted).B(c.HasW).Fs(xs).Fs(ws).I(len(qs))
+	l.I(10)
+	c10Observe(l, &s, qs)
+	return l, nil
+}
+
+// c10Observe appends one case body: sorted hasw [xs] [ws] nq {q st r}* iqr_st iqr unmodified
+func c10Observe(l *Line, s *stats.Sample, qs []float64) {
+	sorted0 := s.Sorted
+	xs0 := append([]float64(nil), s.Xs...)
+	var ws0 []float64
+	if s.Weights != nil {
+		ws0 = append([]float64{}, s.Weights...)
+	}
+	l.B(s.Sorted).B(s.Weights != nil).Fs(s.Xs).Fs(s.Weights).I(len(qs))
 	for _, q := range qs {
 		var r float64
 		pan, _ := catch(func() { r = s.Quantile(q) })
@@ -103,13 +124,65 @@ func c10Run(raw []byte) (*Line, error) {
 	} else {
 		l.I(0).F(r)
 	}
-	unmod := bitsEqual(s.Xs, xs0) && s.Sorted == c.Sorted
-	if ws != nil {
+	unmod := bitsEqual(s.Xs, xs0) && s.Sorted == sorted0
+	if ws0 != nil {
 		unmod = unmod && bitsEqual(s.Weights, ws0)
 	} else {
 		unmod = unmod && s.Weights == nil
 	}
 	l.B(unmod)
+}
+
+// c10RunHistory: one Sample, one backing array for Xs (and one for Weights); before every step
+// the current values are written IN PLACE (same array, so the slice identity &Xs[0] never
+// changes), then Quantile/IQR are observed.  Each step is reported with the values current then.
+func c10RunHistory(c *c10Case) (*Line, error) {
+	if len(c.Xs) != 0 || len(c.Ws) != 0 || len(c.Ps) != 0 || len(c.Qs) != 0 {
+		return nil, fmt.Errorf("history with top-level data")
+	}
+	capN := 0
+	for _, st := range c.Steps {
+		xs, ws, qs := fromF64s(st.Xs), fromF64s(st.Ws), fromF64s(st.Qs)
+		if c.HasW && len(ws) != len(xs) {
+			return nil, fmt.Errorf("len(ws) != len(xs)")
+		}
+		if !c.HasW && len(ws) != 0 {
+			return nil, fmt.Errorf("weights without hasw")
+		}
+		for _, w := range ws {
+			if !(w >= 0) {
+				return nil, fmt.Errorf("negative weight")
+			}
+		}
+		if !allFinite(xs) || !allFinite(ws) || !allFinite(qs) || len(xs) > 2000 {
+			return nil, fmt.Errorf("non-finite input")
+		}
+		if st.Sorted && !sort.Float64sAreSorted(xs) {
+			return nil, fmt.Errorf("Sorted set on data that is not ascending")
+		}
+		if len(xs) > capN {
+			capN = len(xs)
+		}
+	}
+	bx := make([]float64, capN)
+	var bw []float64
+	if c.HasW {
+		bw = make([]float64, capN)
+	}
+	var s stats.Sample
+	l := &Line{}
+	l.I(10).I(2).I(len(c.Steps))
+	for _, st := range c.Steps {
+		n := len(st.Xs)
+		copy(bx[:n], fromF64s(st.Xs))
+		s.Xs = bx[:n]
+		if c.HasW {
+			copy(bw[:n], fromF64s(st.Ws))
+			s.Weights = bw[:n]
+		}
+		s.Sorted = st.Sorted
+		c10Observe(l, &s, fromF64s(st.Qs))
+	}
 	return l, nil
 }
 
@@ -238,6 +311,109 @@ func c10WQs(rng *rand.Rand, xs, ws []float64) []float64 {
 	return out
 }
 
+// a short q list for history steps: ends, quartiles, random, one break point with neighbours
+func c10HistQs(rng *rand.Rand, n int) []float64 {
+	qs := []float64{0.5, 0.25, 0.75, rng.Float64(), rng.Float64(), 0, 1, -0.5, 1.5}
+	if n > 0 {
+		k := 1 + rng.Intn(n)
+		q := (float64(k) - 1.0/3) / (float64(n) + 1.0/3)
+		qs = append(qs, q, math.Nextafter(q, 2), math.Nextafter(q, -2))
+	}
+	return qs
+}
+
+// histories on ONE backing array: fresh values / a permutation of the same values / one element
+// changed / weights changed / the same values ascending + Sorted / another length, in random order
+func c10GenHistory(rng *rand.Rand, weighted bool) c10Case {
+	n := 1 + int(math.Exp(rng.Float64()*math.Log(40)))
+	if rng.Intn(3) == 0 {
+		n = 1 + rng.Intn(5)
+	}
+	xs := c10Values(rng, n)
+	var ws []float64
+	if weighted {
+		ws = c10Weights(rng, n)
+	}
+	c := c10Case{HasW: weighted}
+	add := func(xs, ws []float64, sorted bool) {
+		st := c10Step{Xs: toF64s(xs), Sorted: sorted, Qs: toF64s(c10HistQs(rng, len(xs)))}
+		if weighted {
+			st.Ws = toF64s(ws)
+			if st.Ws == nil {
+				st.Ws = []F64{}
+			}
+		}
+		c.Steps = append(c.Steps, st)
+	}
+	add(xs, ws, false)
+	nsteps := 2 + rng.Intn(4)
+	for i := 0; i < nsteps; i++ {
+		xs = append([]float64{}, xs...)
+		ws = append([]float64(nil), ws...)
+		sorted := false
+		switch rng.Intn(7) {
+		case 0: // fresh values, same length
+			xs = c10Values(rng, len(xs))
+		case 1: // a permutation of the same values (weights stay with their values)
+			rng.Shuffle(len(xs), func(i, j int) {
+				xs[i], xs[j] = xs[j], xs[i]
+				if weighted {
+					ws[i], ws[j] = ws[j], ws[i]
+				}
+			})
+		case 2: // one element changed
+			if len(xs) > 0 {
+				xs[rng.Intn(len(xs))] = c10Values(rng, 1)[0]
+			}
+		case 3: // weights changed in place (unweighted: values scaled)
+			if weighted {
+				ws = c10Weights(rng, len(xs))
+			} else {
+				for i := range xs {
+					xs[i] *= 2
+				}
+			}
+		case 4: // the same multiset ascending, marked Sorted
+			idx := make([]int, len(xs))
+			for i := range idx {
+				idx[i] = i
+			}
+			ox, ow := xs, ws
+			sort.SliceStable(idx, func(i, j int) bool { return ox[idx[i]] < ox[idx[j]] })
+			xs = make([]float64, len(ox))
+			if weighted {
+				ws = make([]float64, len(ox))
+			}
+			for i, j := range idx {
+				xs[i] = ox[j]
+				if weighted {
+					ws[i] = ow[j]
+				}
+			}
+			sorted = true
+		case 5: // another length (a prefix, or longer with fresh values)
+			m := rng.Intn(len(xs) + 3)
+			if m <= len(xs) {
+				xs = xs[:m]
+				if weighted {
+					ws = ws[:m]
+				}
+			} else {
+				xs = c10Values(rng, m)
+				if weighted {
+					ws = c10Weights(rng, m)
+				}
+			}
+		default: // all values replaced by a shifted copy (same order statistics pattern)
+			for i := range xs {
+				xs[i] += 1
+			}
+		}
+		add(xs, ws, sorted)
+	}
+	return c
+}
+
 func c10Gen(tier string, rng *rand.Rand, emit func(interface{})) {
 	thorough := tier == "thorough"
 	// (a) every permutation of small samples (with repeats), both Sorted settings for the ascending one
@@ -313,6 +489,14 @@ func c10Gen(tier string, rng *rand.Rand, emit func(interface{})) {
 			ax[i], aw[i] = xs[j], ws[j]
 		}
 		emit(c10Case{Ps: c10Pairs(ax, aw), HasW: true, Sorted: true, Qs: toF64s(qs)})
+	}
+	// (e) histories on one backing array (in-place overwrites between the queries)
+	nH := 60
+	if thorough {
+		nH = 800
+	}
+	for it := 0; it < nH; it++ {
+		emit(c10GenHistory(rng, it%3 == 2))
 	}
 	// (d) degenerate / malformed: empty, single, all equal, all-zero weights, empty weighted
 	dq := toF64s([]float64{-1, 0, 1e-9, 0.25, 0.5, 0.75, 1, 2})
